@@ -206,10 +206,74 @@ def lt0(e):
 class SArr:
     """symbolic array: shape (ints or z3 Int terms), fn(index tuple) -> element (Z / number)."""
 
-    def __init__(self, shape, fn, name='arr'):
+    dtype = 'float'          # 'float' | 'int': assignment into an int array truncates (numpy's unsafe cast on __setitem__)
+
+    def __init__(self, shape, fn, name='arr', dtype=None):
         self.shape = tuple(ilen(s) for s in shape)
         self.fn = fn
         self.name = name
+        if dtype is not None:
+            self.dtype = dtype
+
+    def __setitem__(self, key, val):
+        """a[lo:hi, ...] = val along leading axes (step 1), a[k] = val: the array becomes the piecewise function"""
+        keys = key if isinstance(key, tuple) else (key,)
+        if any(k is Ellipsis for k in keys):
+            if keys != (Ellipsis,):
+                raise PathAbort('assignment with an ellipsis mixed with other indices not modelled')
+            keys = ()
+        nd = len(self.shape)
+        if len(keys) > nd:
+            raise IndexError('too many indices for array')
+        bounds = []          # per axis: ('slice', lo, hi) | ('index', k)
+        for ax, k in enumerate(keys):
+            n = self.shape[ax]
+            if isinstance(k, slice):
+                if k.step not in (None, 1):
+                    raise PathAbort('slice assignment with a step not modelled')
+                bounds.append(('slice', self._norm(k.start, n, 0), self._norm(k.stop, n, n)))
+            else:
+                kk = ilen(k)
+                if isinstance(kk, int) and kk < 0:
+                    kk = to_len(n) + kk if not isinstance(n, int) else n + kk
+                bounds.append(('index', kk, None))
+        old = self.fn
+        trunc = self.dtype == 'int'
+
+        def value_at(idx):
+            sub = tuple((idx[ax] - b[1]) if b[0] == 'slice' else None for ax, b in enumerate(bounds))
+            sub = tuple(x for x in sub if x is not None) + tuple(idx[len(bounds):])
+            if isinstance(val, SArr):
+                off = len(sub) - len(val.shape)
+                if off < 0:
+                    raise PathAbort('assigned array has more axes than the target region')
+                v = val.fn(tuple(sub[off:]))
+            else:
+                v = val
+            e = to_z3(v)
+            if trunc and not z3.is_int(e):
+                e = z3.If(e >= 0, z3.ToInt(e), -z3.ToInt(-e))       # truncation toward zero, as numpy casts on assignment
+                e = z3.ToReal(e)
+            return e
+
+        def fn(idx):
+            conds = []
+            for ax, b in enumerate(bounds):
+                i = to_z3(idx[ax])
+                conds.append(z3.And(i >= to_z3(b[1]), i < to_z3(b[2])) if b[0] == 'slice' else i == to_z3(b[1]))
+            cond = z3.simplify(z3.And(*conds)) if conds else z3.BoolVal(True)
+            if z3.is_true(cond):
+                return Z(value_at(idx))
+            o = to_z3(unwrap(old(idx)))
+            if z3.is_false(cond):
+                return Z(o)
+            nv = value_at(idx)
+            if z3.is_int(o) and not z3.is_int(nv):
+                o = z3.ToReal(o)
+            if z3.is_int(nv) and not z3.is_int(o):
+                nv = z3.ToReal(nv)
+            return Z(z3.If(cond, nv, o))
+        self.fn = fn
 
     @property
     def T(self):
@@ -267,7 +331,7 @@ class SArr:
                           f'within [0, {n})', z3.And(to_z3(k) >= 0, to_z3(k) < to_z3(n)))
         if len(self.shape) == 1:
             return wrap(self.fn((k,)))
-        return SArr(self.shape[1:], lambda idx, k=k: self.fn((k,) + idx), self.name)
+        return SArr(self.shape[1:], lambda idx, k=k: self.fn((k,) + idx), self.name, dtype=self.dtype)
 
     def _norm(self, v, n, default):
         """python slice bound normalisation for step +1"""
@@ -292,9 +356,9 @@ class SArr:
                 ln = max(hi - lo, 0)
             else:
                 ln = z3.simplify(z3.If(to_z3(hi) - to_z3(lo) > 0, to_z3(hi) - to_z3(lo), 0))
-            return SArr((ln,) + self.shape[1:], lambda idx, lo=lo: self.fn((idx[0] + lo,) + idx[1:]) if not isinstance(idx[0], int) or not isinstance(lo, int) else self.fn((idx[0] + lo,) + idx[1:]), self.name)
+            return SArr((ln,) + self.shape[1:], lambda idx, lo=lo: self.fn((idx[0] + lo,) + idx[1:]) if not isinstance(idx[0], int) or not isinstance(lo, int) else self.fn((idx[0] + lo,) + idx[1:]), self.name, dtype=self.dtype)
         if step == -1 and sl.start is None and sl.stop is None:
-            return SArr(self.shape, lambda idx: self.fn((to_len(n) - 1 - idx[0],) + idx[1:]), self.name)
+            return SArr(self.shape, lambda idx: self.fn((to_len(n) - 1 - idx[0],) + idx[1:]), self.name, dtype=self.dtype)
         raise PathAbort(f'slice step {step} not modelled')
 
     def moveaxis0(self, ax):
@@ -310,7 +374,7 @@ class SArr:
         return self.transpose(perm)
 
     def __abs__(self):
-        return SArr(self.shape, lambda idx: abs(wrap(self.fn(idx))), self.name)
+        return SArr(self.shape, lambda idx: abs(wrap(self.fn(idx))), self.name, dtype=self.dtype)
 
     def transpose(self, *perm):
         # numpy accepts a.transpose(), a.transpose((2, 1, 0)) and a.transpose(2, 1, 0)
@@ -325,17 +389,30 @@ class SArr:
             for newax, oldax in enumerate(perm):
                 src[oldax] = idx[newax]
             return self.fn(tuple(src))
-        return SArr(shp, fn, self.name)
+        return SArr(shp, fn, self.name, dtype=self.dtype)
 
     # --- elementwise arithmetic
     def _ew(self, o, f, rev=False):
+        # dtype of an arithmetic result: integer only when both operands are integer-typed (division is handled by the caller
+        # of _ew for truediv, which always gives floats)
+        def _is_int_operand(x):
+            if isinstance(x, SArr):
+                return x.dtype == 'int'
+            if isinstance(x, bool):
+                return True
+            if isinstance(x, int):
+                return True
+            if isinstance(x, Z):
+                return z3.is_int(x.e)
+            return False
+        dt = 'int' if (self.dtype == 'int' and _is_int_operand(o)) else 'float'
         if isinstance(o, SArr):
             if len(o.shape) != len(self.shape):
                 raise PathAbort('broadcast between different ranks not modelled')
-            return SArr(self.shape, lambda idx: f(wrap(self.fn(idx)), wrap(o.fn(idx))), self.name)
+            return SArr(self.shape, lambda idx: f(wrap(self.fn(idx)), wrap(o.fn(idx))), self.name, dtype=dt)
         if rev:
-            return SArr(self.shape, lambda idx: f(o, wrap(self.fn(idx))), self.name)
-        return SArr(self.shape, lambda idx: f(wrap(self.fn(idx)), o), self.name)
+            return SArr(self.shape, lambda idx: f(o, wrap(self.fn(idx))), self.name, dtype=dt)
+        return SArr(self.shape, lambda idx: f(wrap(self.fn(idx)), o), self.name, dtype=dt)
 
     def __add__(self, o): return self._ew(o, lambda a, b: a + b)
     def __radd__(self, o): return self._ew(o, lambda a, b: a + b, True)
@@ -343,8 +420,11 @@ class SArr:
     def __rsub__(self, o): return self._ew(o, lambda a, b: a - b, True)
     def __mul__(self, o): return self._ew(o, lambda a, b: a * b)
     def __rmul__(self, o): return self._ew(o, lambda a, b: a * b, True)
-    def __truediv__(self, o): return self._ew(o, lambda a, b: a / b)
-    def __neg__(self): return SArr(self.shape, lambda idx: -wrap(self.fn(idx)), self.name)
+    def __truediv__(self, o):
+        r = self._ew(o, lambda a, b: a / b)
+        r.dtype = 'float'
+        return r
+    def __neg__(self): return SArr(self.shape, lambda idx: -wrap(self.fn(idx)), self.name, dtype=self.dtype)
 
 
 def to_len(n):
@@ -361,9 +441,13 @@ def unwrap(v, real=True):
     return to_z3(v, real=real)
 
 
-def base_array(name, shape):
-    """array of an uninterpreted function F_name(i, j, ...) : Real"""
+def base_array(name, shape, dtype='float'):
+    """array of an uninterpreted function F_name(i, j, ...) : Real (dtype 'int': integer-valued entries, int array)"""
     nd = len(shape)
+    if dtype == 'int':
+        Fi = z3.Function(name + '_int', *([z3.IntSort()] * nd + [z3.IntSort()]))
+        F = lambda *a: z3.ToReal(Fi(*a))
+        return SArr(shape, lambda idx: Z(F(*[to_z3(i) for i in idx])), name, dtype='int'), F
     F = z3.Function(name, *([z3.IntSort()] * nd + [z3.RealSort()]))
     return SArr(shape, lambda idx: Z(F(*[to_z3(i) for i in idx])), name), F
 
@@ -457,6 +541,34 @@ class ShimNPz:
     def stack(self, xs, axis=0):
         r = stack(xs)
         return r if axis == 0 else self.moveaxis(r, 0, axis)
+
+    def _alloc(self, shape, fill, dtype):
+        import numpy
+        dt = 'int' if (dtype in ('int', int) or (dtype is not None and dtype not in ('float', float) and numpy.issubdtype(numpy.dtype(dtype), numpy.integer))) else 'float'
+        if fill is None:
+            G = z3.Function(f'uninitialised!{next(ctx().fresh)}', *([z3.IntSort()] * len(shape) + [z3.RealSort()]))
+            fn = lambda idx: Z(G(*[to_z3(i) for i in idx]))
+        else:
+            fn = lambda idx: Z(z3.RealVal(fill) if dt == 'float' else z3.ToReal(z3.IntVal(int(fill))))
+        return SArr(tuple(shape), fn, 'alloc', dtype=dt)
+
+    def empty_like(self, a, dtype=None, **k):
+        return self._alloc(a.shape, None, dtype if dtype is not None else a.dtype) if isinstance(a, SArr) else getattr(__import__('numpy'), 'empty_like')(a, dtype=dtype, **k)
+
+    def zeros_like(self, a, dtype=None, **k):
+        return self._alloc(a.shape, 0, dtype if dtype is not None else a.dtype) if isinstance(a, SArr) else getattr(__import__('numpy'), 'zeros_like')(a, dtype=dtype, **k)
+
+    def ones_like(self, a, dtype=None, **k):
+        return self._alloc(a.shape, 1, dtype if dtype is not None else a.dtype) if isinstance(a, SArr) else getattr(__import__('numpy'), 'ones_like')(a, dtype=dtype, **k)
+
+    def _symbolic_shape(self, shape):
+        return isinstance(shape, tuple) and any(not isinstance(ilen(x), int) for x in shape)
+
+    def empty(self, shape, dtype=None, **k):
+        return self._alloc(tuple(ilen(x) for x in shape), None, dtype) if self._symbolic_shape(shape) else getattr(__import__('numpy'), 'empty')(shape, dtype=dtype or float, **k)
+
+    def zeros(self, shape, dtype=None, **k):
+        return self._alloc(tuple(ilen(x) for x in shape), 0, dtype) if self._symbolic_shape(shape) else getattr(__import__('numpy'), 'zeros')(shape, dtype=dtype or float, **k)
 
     def _perm_move(self, nd, src, dst):
         src, dst = src % nd, dst % nd
@@ -705,3 +817,14 @@ def run_block_status(stmts, glb, loc, filename='<extracted>'):
     exec(compile(mod, filename, 'exec'), glb, loc)
     loc.pop('_once', None)
     return loc.pop('_status')
+
+
+def raised_in_code_under_test(exc, roots=('/repo/',)):
+    """True if the innermost frame of the exception lies in the code under test: then it is the code that raised.
+    Otherwise a library or the symbolic shim choked on a symbolic object -- a limit of the tool, never a verdict."""
+    tb = exc.__traceback__
+    last = None
+    while tb is not None:
+        last = tb.tb_frame.f_code.co_filename
+        tb = tb.tb_next
+    return bool(last) and any(last.startswith(r) for r in roots)
